@@ -77,7 +77,7 @@ def project():
             except AttributeError:
                 r[k] = "AttributeError"
         reads[lbl] = r
-        own[lbl] = {k: token(v) for k, v in o.__dict__.items() if k not in BOOK}
+        own[lbl] = {k: token(v) for k, v in o.__dict__.items() if k != "target" and not k.startswith("_NodeMixin__") and not k.startswith("_LightNodeMixin__")}
     return {"alive": sorted(N.Ctx.objs), "tgt": tgt, "par": par, "ch": ch, "reads": reads, "own": own}
 
 
